@@ -1,6 +1,7 @@
 from __future__ import annotations
 
 import logging
+import os
 from typing import (
     IO,
     Callable,
@@ -116,12 +117,18 @@ def import_root_histogram(
     path = path or ''
     path = path.strip('/')
     fullpath = str(resolver(filename))
-    if fullpath not in filecache:
+    # identify the file by path, modification time and size so that a file
+    # that was rewritten since a previous import is not served from the cache
+    filestat = os.stat(fullpath)
+    cachekey = f"{fullpath}:{filestat.st_mtime_ns}:{filestat.st_size}"
+    if cachekey not in filecache:
+        for stale_key in [key for key in filecache if key.startswith(f"{fullpath}:")]:
+            del filecache[stale_key]
         f = uproot.open(fullpath)
         keys = set(f.keys(cycle=False))
-        filecache[fullpath] = (f, keys)
+        filecache[cachekey] = (f, keys)
     else:
-        f, keys = filecache[fullpath]
+        f, keys = filecache[cachekey]
 
     fullname = "/".join([path, name])
 
